@@ -49,6 +49,15 @@ CHECKS = {
                 "float-evaluation error of a whole sample accepts either neighbour",
         "technique": "property-based testing: Hypothesis vs exact-rational transfer function and DFT oracle; metamorphic round trip",
     },
+    "C06": {
+        "text": "time_delay/sample_delay against the exact-rational f^-2 law for generated DMs (either sign, 8 decades, pc/cm3 and equivalent units), "
+                "frequency scalars/arrays and references in Hz..GHz (and infinity), with antisymmetry and chain additivity; incoherent_dedispersion on "
+                "every radio class traced sample by sample through index-coded data: each output sample must be the input sample of the same channel at "
+                "T + round(delay_i)/rate, all sources in range, non-empty whenever a valid output exists. Exploration.",
+        "ref": "DESIGN.md section 4 C06",
+        "note": "float64 delay tolerance 16 eps K|DM|(f^-2+fref^-2); a delay within float-evaluation error of a half-integer accepts either rounding",
+        "technique": "property-based testing: Hypothesis vs exact-rational law; source tracing through index-coded data",
+    },
     "C18": {
         "text": "Generated-input search against an independent table of all 7-smooth numbers below 2^64: exhaustive for 0 <= N < 10^6 (10^7 thorough), "
                 "at s-1, s, s+1 and the midpoint for the 7-smooth s < 2^62 (all of them in the thorough tier), Hypothesis integers over [0, 2^62), and "
